@@ -15,6 +15,7 @@ import (
 	sdk "github.com/cosmos/cosmos-sdk/types"
 	authtypes "github.com/cosmos/cosmos-sdk/x/auth/types"
 	disttypes "github.com/cosmos/cosmos-sdk/x/distribution/types"
+	stakingkeeper "github.com/cosmos/cosmos-sdk/x/staking/keeper"
 	stakingtypes "github.com/cosmos/cosmos-sdk/x/staking/types"
 	"github.com/cosmos/gogoproto/proto"
 
@@ -131,6 +132,9 @@ type Opts struct {
 	// CommHooks replaces the commitment hooks (estaking, which calls into the SDK staking keeper for Eden and
 	// EdenB amounts) by the given implementation, for steps on Eden commitments. nil = the real estaking hooks.
 	CommHooks commitmenttypes.CommitmentHooks
+	// SdkStaking is the SDK staking keeper embedded in the estaking keeper (nil = none; harnesses that reach it pass
+	// a zero value whose methods are under contract).
+	SdkStaking *stakingkeeper.Keeper
 }
 
 func New(o Opts) *Env {
@@ -144,7 +148,7 @@ func New(o Opts) *Env {
 	e.Aprof = assetprofilekeeper.NewKeeper(cdc, ss(assetprofiletypes.StoreKey), nil, Gov)
 	e.Comm = commitmentkeeper.NewKeeper(cdc, ss(commitmenttypes.StoreKey), ak, e.Bank, Staking{}, *e.Aprof, Gov)
 	e.Tokenomics = tokenomicskeeper.NewKeeper(cdc, ss(tokenomicstypes.StoreKey), e.Comm, Gov)
-	e.Estaking = estakingkeeper.NewKeeper(cdc, ss(estakingtypes.StoreKey), *e.Param, nil, e.Comm, Distr{}, *e.Aprof, *e.Tokenomics, Gov)
+	e.Estaking = estakingkeeper.NewKeeper(cdc, ss(estakingtypes.StoreKey), *e.Param, o.SdkStaking, e.Comm, Distr{}, *e.Aprof, *e.Tokenomics, Gov)
 	e.Oracle = oraclekeeper.NewKeeper(cdc, ss(oracletypes.StoreKey), Gov, nil, nil, nil)
 	var orc OracleLike = *e.Oracle
 	if o.Oracle != nil {
